@@ -186,6 +186,50 @@ pub fn large_histories(seed: u64, n: usize, with_crash: bool) -> RunOut {
     c.out
 }
 
+/// Short logs in which about half of the blocks are empty (C01): clears of ranges that contain no
+/// bytes, or that end where an earlier clear truncated the data store, repeated clears, reopen.
+pub fn empties_histories(seed: u64, n: usize) -> RunOut {
+    let mut r = Rng::new(seed);
+    let mut c = Ctx { sim: Sim::new(), out: RunOut { ops: vec![], outs: vec![], stats: BTreeMap::new(), failures: vec![], samples: vec![] }, seen: HashSet::new(), hist_digest: String::new() };
+    let blk = |r: &mut Rng| -> String { if r.chance(1, 2) { "-".to_string() } else { let k = r.range(1, 6) as usize; hex(&r.bytes(k)) } };
+    for _ in 0..n {
+        c.run(format!("new W {SEED_HEX}"));
+        let nops = r.range(4, 12);
+        for _ in 0..nops {
+            let len = c.sim.h["W"].oracle.len;
+            match r.below(10) {
+                0..=3 => { c.run(format!("append W {}", blk(&mut r))); }
+                4 => { let k = r.range(1, 3); c.run(format!("batch W {}", (0..k).map(|_| blk(&mut r)).collect::<Vec<_>>().join(","))); }
+                5..=8 if len > 0 => {
+                    let s = r.below(len);
+                    let e = match r.below(3) { 0 => len, 1 => s + 1, _ => r.range(s + 1, len + 1) };
+                    *c.out.stats.entry("op_clear_small".into()).or_insert(0) += 1;
+                    c.run(format!("clear W {s} {e}"));
+                    // often clear again inside or after the range just cleared
+                    if r.chance(1, 2) { c.run("probe W".into()); let s2 = r.range(s, len - 1); let e2 = r.range(s2 + 1, len); c.run(format!("clear W {s2} {e2}")); }
+                }
+                9 => { c.run("reopen W".into()); }
+                _ => { c.run(format!("append W {}", blk(&mut r))); }
+            }
+            c.run("probe W".into());
+        }
+        c.run("reopen W".into());
+        c.run("probe W".into());
+        c.end_history();
+    }
+    c.out
+}
+
+/// Execute the operation lines of a file (one per line) through the executor with its oracle:
+/// used for replays and hand-written scenarios.
+pub fn script(path: &str) -> RunOut {
+    let mut c = Ctx { sim: Sim::new(), out: RunOut { ops: vec![], outs: vec![], stats: BTreeMap::new(), failures: vec![], samples: vec![] }, seen: HashSet::new(), hist_digest: String::new() };
+    let text = std::fs::read_to_string(path).expect("script file");
+    for line in text.lines() { let l = line.trim(); if l.is_empty() || l.starts_with('#') { continue; } let o = c.run(l.to_string()); println!("{l}\n   -> {}", crate::sim::trunc(&o)); }
+    c.end_history();
+    c.out
+}
+
 /// Medium-sized cores with range operations at every word alignment (C08/C01): batch appends and
 /// clears whose ends fall on, just before and just after 32-bit word edges, has() scanned on every
 /// index after each operation.
